@@ -170,3 +170,11 @@ func execLine(line string) string {
 	}
 	return strings.ReplaceAll(out, "\n", " ")
 }
+
+// verifRoot: where the verification tree lives (the harness reads the regenerated registry and the spec table from it)
+func verifRoot() string {
+	if v := os.Getenv("VERIF_ROOT"); v != "" {
+		return v
+	}
+	return "/verif"
+}
